@@ -81,6 +81,10 @@ CHECKS = {
    technique="TLA+ spec FlatLines.tla (csv2 line buffer with one flat field slice, offset shifting, rows-based and header/footer matching, column selection; rune slicing of fixed-length columns) checked by TLC against the logical-table reference; cases replayed on csv2, fixedlength2, legacy fixed-length and legacy csv with rich payloads; random tables re-evaluated by TLC (Trace_FlatLines.tla)",
    text="TLC checks on every small table x record declaration x column set that the values the buffer model hands to node creation are the texts at the declared positions, in input order, with consistent offsets and no reachable panic guard, and that rune slicing equals the clipped slice. Every case is concretised (delimiters incl. multi-byte runes, quoting, embedded delimiters/quotes/newlines, leading/trailing blanks, payloads beyond 4 KiB and 64 KiB, CRLF, missing final terminator) and run on four real readers; larger random tables are validated by TLC.",
    note="Trusted: TLC, the CSV encoder of the harness, encoding/csv and bufio. Payload space is sampled; shape space is exhaustive at small scope."),
+ "C03": dict(cat="exploration", design="5/C03",
+   technique="panic-guard and progress invariants of the state-machine specifications (Hierarchy.tla, FlatLines.tla, Transform.tla) model-checked by TLC; structural schema mutation and bytewise input mutation of the real code under recover + watchdog, outcomes validated by TLC against Trace_Robust.tla",
+   text="TLC shows the panic guards of the hierarchical matcher and the csv2 line buffer unreachable and the read loop bounded on the bounded models. The whole byte space cannot be enumerated: a seeded driver applies single structural mutations to every corpus schema and bytewise mutations to the inputs, runs NewSchema, NewTransform and the read loop under recover and a per-call watchdog, and TLC checks each recorded outcome (no panic, no timeout, terminal result within len(input)+3 Reads). Exploration, not proof.",
+   note="Trusted: TLC, the watchdog (3-5 s per call). Third-party panics are observed only. Every other check's drivers also run under recover."),
 }
 
 def main():
